@@ -10,6 +10,12 @@ _NOTE = ("Trusted: Coq 8.16.1 kernel; extraction (ExtrOcamlBasic) + OCaml 4.13.1
          "is compared with generate.Compile on the text (original order of every file + every 32nd reordering; the other "
          "texts start from Parser.Defs(), dumped by the harness); Go harness / OCaml driver / check.py glue. "
          "Print Assumptions: closed under the global context (no axioms). Stdlib only, no Flocq: floats are bit patterns. "
+         "Outside the functional model (a fact about Go memory): a CompileResult is a value the caller keeps - in the "
+         "model results are values, so 'compiling file B does not change the result of file A' and 'compiling the same text "
+         "twice gives the same result' hold trivially; whether the Go objects alias state shared between calls (pooled "
+         "compilers, reused backing arrays) is OBSERVED by the harness: the results of the last 4 Compile calls are kept "
+         "alive and re-dumped (database, warning kind/position/Error() text) after every later call, and the original order "
+         "of every file is compiled again after the next file (clauses kept_result_changed, recompile_differs). "
          "INT attribute values: since the fix F12 Parser.int() (code and model) reads a decimal integer literal exactly "
          "over the whole int64 range (Properties/C04.v C04_int_conversion_exact), so 'the value written in the source' "
          "holds for every int64 start value / attribute value written as a decimal integer (class files go up to both "
@@ -50,7 +56,9 @@ RULE = ("seeded generator of DESIGN 4.2 files (1..20 nodes, 0..22 messages stand
         "order + every permutation of <= 4 messages / signals of a message / resolved metadata lines, 24 random ones above, 8 "
         "combined shuffles; plus out-of-class 'wild' files (duplicates, truncating sizes, non-integral or out-of-range VAL_ "
         "values, wrapping cycle times) for model = implementation only. non-trivial = the file has at least one compiled "
-        "message; distinct by hash of (file, variant)")
+        "message; distinct by hash of (file, variant); history: after every Compile call the 4 most recent kept results are "
+        "dumped again and must be unchanged, and each file's original order is compiled a second time after the following "
+        "file (consecutive texts almost always both carry warnings, at different positions)")
 
 
 def sizes(tier):
